@@ -181,7 +181,8 @@ class ConcatenatedObject(Concatenated, ObjectBase):
         if not isinstance(children, list):
             children = [children]
 
-        for child in children:
+        # the caller may hand over the child list itself
+        for child in list(children):
             if child not in self._children:
                 continue
 
